@@ -109,7 +109,13 @@ class SuperNet(DNAS):
         :rtype: nn.Module
         """
         model = self.seed
-        model, _, _ = convert(model, self._input_example, 'export')
+        # conversion forces `eval()` on the inner model: restore its training status afterwards
+        training_status = [(m, m.training) for m in self.seed.modules()]
+        try:
+            model, _, _ = convert(model, self._input_example, 'export')
+        finally:
+            for m, status in training_status:
+                m.training = status
         return model
 
     def summary(self) -> Dict[str, Dict[str, Any]]:
